@@ -33,6 +33,10 @@ pub struct Seq {
     /// moved to another task) must be woken through the latest one.
     #[serde(default, skip_serializing_if = "Vec::is_empty")]
     pub wakers: Vec<u8>,
+    /// For write operation i: 0 (or missing) = `poll_write`; n > 0 = `poll_write_vectored` with the bytes cut into
+    /// slices of n bytes (the vectored entry point must respect the capacity as well).
+    #[serde(default, skip_serializing_if = "Vec::is_empty")]
+    pub vectored: Vec<u8>,
 }
 
 /// Either `{seed, batch}` (sequences generated from the seed) or `{seqs}` (explicit).
@@ -75,7 +79,7 @@ impl ChanScenario {
         match (&self.seqs, self.seed) {
             (Some(s), _) => s[i].clone(),
             (None, Some(seed)) => gen_seq(seed, i as u64),
-            (None, None) => Seq { cap: 1, budget: None, ops: vec![], wakers: vec![] },
+            (None, None) => Seq { cap: 1, budget: None, ops: vec![], wakers: vec![], vectored: vec![] },
         }
     }
 
@@ -193,7 +197,14 @@ pub fn gen_seq(seed: u64, idx: u64) -> Seq {
             wakers.push(cur);
         }
     }
-    Seq { cap, budget, ops, wakers }
+    let mut vr = Rng::new(mix(seed, "chan-vectored", idx));
+    let mut vectored = vec![];
+    if vr.chance(1, 3) {
+        for _ in 0..ops.len() {
+            vectored.push(if vr.chance(1, 2) { vr.range(1, 4) as u8 } else { 0 });
+        }
+    }
+    Seq { cap, budget, ops, wakers, vectored }
 }
 
 fn single(seq: Seq) -> ChanScenario {
@@ -235,6 +246,9 @@ pub fn shrink(sc: &ChanScenario) -> Vec<ChanScenario> {
             if s.wakers.len() >= end {
                 s.wakers.drain(start..end);
             }
+            if s.vectored.len() >= end {
+                s.vectored.drain(start..end);
+            }
             push(s, &mut out);
             end = start;
         }
@@ -251,6 +265,11 @@ pub fn shrink(sc: &ChanScenario) -> Vec<ChanScenario> {
     if !seq.wakers.is_empty() {
         let mut s = seq.clone();
         s.wakers.clear();
+        push(s, &mut out);
+    }
+    if !seq.vectored.is_empty() {
+        let mut s = seq.clone();
+        s.vectored.clear();
         push(s, &mut out);
     }
     for i in 0..n {
